@@ -34,6 +34,11 @@ def SubOk (f : Fe) : Prop := Bnd (2^53 - 75) f
 /-- admissible operand of add / mul / square / mul_small / to_bytes: limbs `< 2^54` -/
 def Loose (f : Fe) : Prop := Bnd (2^54) f
 
+instance (f : Fe) : Decidable (Tight f) := inferInstanceAs (Decidable (Bnd _ f))
+instance (f : Fe) : Decidable (Pub f) := inferInstanceAs (Decidable (Bnd _ f))
+instance (f : Fe) : Decidable (SubOk f) := inferInstanceAs (Decidable (Bnd _ f))
+instance (f : Fe) : Decidable (Loose f) := inferInstanceAs (Decidable (Bnd _ f))
+
 theorem Bnd.mono {a b : Nat} {f : Fe} (h : a ≤ b) (hf : Bnd a f) : Bnd b f := by
   unfold Bnd at *; omega
 theorem Tight.pub {f : Fe} (h : Tight f) : Pub f := Bnd.mono (by decide) h
